@@ -26,8 +26,12 @@ RULES = {
     "R6": "shared tensors do not carry names between copies (shared with C03-R6): clones share tensor objects with their originals "
     "and renaming a Value renames its tensor, so the serializer names every initializer after its Value (alignment statement "
     "dominating the emission, or the proto's name overwritten unconditionally) - never after the tensor's own, possibly stale, name",
+    "R7": "collections are transferred element for element: in the cloner and the clone() methods, a comprehension or loop that "
+    "maps a collection of the original (inputs, outputs, initializers, nodes, attributes, functions) to its image in the clone has "
+    "no filter on the source element - the only admitted filter tests the *result* of the cloning call for None - so the clone "
+    "holds an image of every element: a value that is both an input and an initializer stays an initializer of the clone",
 }
-FLOORS = {"R1": 26, "R2": 30, "R3": 2, "R4": 1, "R5": 2, "R6": 1}
+FLOORS = {"R1": 26, "R2": 30, "R3": 2, "R4": 1, "R5": 2, "R6": 1, "R7": 7}
 EXPLANATION = (
     "A sharing analysis over the cloner and the clone() methods: each data flow original.field → clone is classified "
     "by the mutability of the field's declared class (computed from the source: setters, __setitem__, self-stores) "
@@ -639,8 +643,68 @@ def _param_default(f, name):
     return None
 
 
+def rule_r7(ctx):
+    repo = ctx.repo
+    funcs = [f for f in repo.module(CL).all_funcs if not isinstance(f.node, ast.Lambda)]
+    funcs += [f for f in repo.module("onnx_ir._core").all_funcs if f.name in ("clone", "deep_copy") and not isinstance(f.node, ast.Lambda)]
+    n = 0
+    for f in funcs:
+        params = set(f.params)
+        for c in (x for x in own_nodes(f.node) if isinstance(x, (ast.ListComp, ast.SetComp, ast.GeneratorExp, ast.DictComp))):
+            gen = c.generators[0]
+            root = gen.iter
+            while isinstance(root, (ast.Attribute, ast.Call, ast.Subscript)):
+                root = root.func if isinstance(root, ast.Call) else root.value
+            if not (isinstance(root, ast.Name) and root.id in params):
+                continue
+            n += 1
+            bound = {x.target.id for x in ast.walk(c) if isinstance(x, ast.NamedExpr)}
+            bad = None
+            for g_ in c.generators:
+                for cond in g_.ifs:
+                    t = cond
+                    ok = isinstance(t, ast.Compare) and len(t.ops) == 1 and isinstance(t.ops[0], ast.IsNot) and isinstance(t.comparators[0], ast.Constant) \
+                        and t.comparators[0].value is None and (isinstance(t.left, ast.NamedExpr) or (isinstance(t.left, ast.Name) and t.left.id in bound))
+                    if not ok:
+                        bad = cond
+            ctx.check("R7", f"{f.local}: every element of {norm(gen.iter)[:50]} gets an image in the clone", bad is None, f, bad if bad is not None else c,
+                      f"the elements of `{norm(gen.iter)}` are cloned only where `{norm(bad) if bad is not None else ''}` holds: the others have no image in the "
+                      "clone's collection (an initializer that is also a graph input is missing from the clone's initializers, so the clone serializes "
+                      "without its tensor)",
+                      how="filters of the comprehensions over collections of the original in the cloner / clone() methods", nontrivial=bad is not None,
+                      construct=f"filtered transfer of {norm(gen.iter)[:60]}")
+        for lp in (x for x in own_nodes(f.node) if isinstance(x, ast.For)):
+            root = lp.iter
+            while isinstance(root, (ast.Attribute, ast.Call, ast.Subscript)):
+                root = root.func if isinstance(root, ast.Call) else root.value
+            if not (isinstance(root, ast.Name) and root.id in params) or not any(
+                    isinstance(x, ast.Call) and isinstance(x.func, ast.Attribute) and (x.func.attr.startswith("clone") or x.func.attr in ("append", "add"))
+                    for b in lp.body for x in ast.walk(b)):
+                continue
+            n += 1
+            def own_level(stmts):
+                for st in stmts:
+                    if isinstance(st, (ast.For, ast.While, ast.FunctionDef, ast.AsyncFunctionDef)):
+                        continue
+                    yield st
+                    for fld in ("body", "orelse", "finalbody"):
+                        blk = getattr(st, fld, None)
+                        if isinstance(blk, list) and blk and isinstance(blk[0], ast.stmt):
+                            yield from own_level(blk)
+                    for h in getattr(st, "handlers", []):
+                        yield from own_level(h.body)
+
+            skips = [x for x in own_level(lp.body) if isinstance(x, (ast.Continue, ast.Break))]
+            ctx.check("R7", f"{f.local}: the loop over {norm(lp.iter)[:50]} transfers every element", not skips, f, skips[0] if skips else lp,
+                      f"the loop over `{norm(lp.iter)}` that builds the clone's collection skips elements", how="no continue/break in the transferring loop",
+                      nontrivial=False, construct=f"skipping transfer loop over {norm(lp.iter)[:60]}")
+    ctx.require(n >= 7, f"only {n} collection transfers found in the cloner")
+
+
 def run(ctx):
     from . import c03
+
+    rule_r7(ctx)
 
     c03.rule_r6(ctx, rule="R6", extra="; with a clone, renaming the initializer on one copy changes what the other copy serializes to")
     rule_graph_attr_returns(ctx)
